@@ -32,3 +32,4 @@ def run(ctx):
     ctx.floor("X5.fast_paths", n5, 1)
     dmlrules.index_value_is_row_key(ctx, "X6.INDEX-VALUE")
     dmlrules.undo_restores_entry(ctx, "X7.UNDO-RESTORES-ENTRY")
+    dmlrules.modified_set_complete(ctx, "X8.MODIFIED-SET-COMPLETE")
